@@ -202,8 +202,11 @@ package ocimem
 //@     (hasTag(r, n, t) ==> r.repos[n].tags[t] == old(r.repos[n].tags[t]))
 
 //@ func (*Registry).PushBlobChunked
+// A resumed writer checks its first write against the offset the caller gave
+// (-1: no check), whatever an earlier writer on the same upload left behind.
 //@ func (*Registry).PushBlobChunkedResume
 //@   atomic
+//@   ensures[arms-the-offset-check] result.1 == nil ==> result.0 == b && b != nil && b.checkStartOffset == offset
 
 // Deletions. In immutable-tags mode content is only deleted after refersTo
 // found it unreachable from every tag.
@@ -317,6 +320,8 @@ package ocimem
 //@   modifies nothing
 //@   log
 //@   pure-param cmp
+//@   holds Registry.mu
+//@   guarded-param m Registry.mu
 //@   requires cmp != nil
 //@   loop 0 invariant forall i int :: 0 <= i && i < len(ks) ==> in(m, ks[i]) && visited(m, ks[i]) && cmp(startAfter, ks[i]) < 0
 //@   loop 0 invariant forall k K :: visited(m, k) && cmp(startAfter, k) < 0 ==> exists i int :: 0 <= i && i < len(ks) && ks[i] == k
@@ -371,13 +376,20 @@ package ocimem
 //@   ensures[no-bytes-with-an-error] result.2 != nil ==> result.1 == nil && result.0 == zero(ociregistry.Descriptor)
 //@   ensures[succeeds-iff-committed-cleanly] (result.2 == nil) == (b.committed && b.commitErr == nil)
 
+// The buffer is append-only: no method ever shortens or rewrites it (a
+// committed blob shares its backing array).
 //@ func (*Buffer).Write
 //@   ensures[offset-mismatch-refused] old(b.checkStartOffset) != 0 - 1 && old(len(b.buf)) != old(b.checkStartOffset) ==>
 //@     result.0 == 0 && errIs(result.1, ociregistry.ErrRangeInvalid) && string(b.buf) == old(string(b.buf))
+//@   ensures[refusal-keeps-the-check-armed] result.1 != nil ==> b.checkStartOffset == old(b.checkStartOffset)
+//@   ensures[write-touches-nothing-else] b.committed == old(b.committed) && b.desc == old(b.desc) && b.commitErr == old(b.commitErr)
 //@   ensures[appends-exactly-the-data] !(old(b.checkStartOffset) != 0 - 1 && old(len(b.buf)) != old(b.checkStartOffset)) ==>
 //@     result.0 == len(data) && result.1 == nil && string(b.buf) == old(string(b.buf)) + string(data) && b.checkStartOffset == 0 - 1
 
+//@ func (*Buffer).Cancel
+//@   ensures[bytes-untouched] string(b.buf) == old(string(b.buf)) && len(b.buf) == old(len(b.buf)) && b.desc == old(b.desc) && b.committed == old(b.committed)
 //@ func (*Buffer).checkCommit
+//@   ensures[bytes-untouched] string(b.buf) == old(string(b.buf))
 //@   ensures[verified-before-committed] result == nil ==>
 //@     b.committed && b.commitErr == nil && b.desc.Digest == dig && b.desc.Size == len(b.buf) && digest.FromBytes(b.buf) == dig
 //@   ensures[wrong-digest-refused] old(b.commitErr) == nil && digest.FromBytes(old(b.buf)) != dig ==>
